@@ -109,8 +109,11 @@ pub async fn dispatch_command<W: AsyncWrite + Unpin>(
             }
         }
         _ => {
-            error!(target: "sneldb::dispatch", ?cmd, "Unreachable command variant encountered");
-            unreachable!("dispatch_command called with non-command")
+            error!(target: "sneldb::dispatch", ?cmd, "Unsupported command variant encountered");
+            let resp = Response::error(StatusCode::BadRequest, "Unsupported command");
+            writer.write_all(&renderer.render(&resp)).await?;
+            writer.flush().await?;
+            Ok(())
         }
     }
 }
